@@ -17,6 +17,8 @@ REPO = os.environ.get('FLOWCAL_REPO', '/repo')
 
 EXIT_OK, EXIT_VIOLATION, EXIT_UNDECIDED, EXIT_BROKEN = 0, 1, 2, 3
 JOB_BUDGET_S = int(os.environ.get('PYVC_JOB_BUDGET_S', '420'))
+MUTANT_BUDGET_S = int(os.environ.get("PYVC_MUTANT_BUDGET_S", "240"))
+MAX_MUTANTS = int(os.environ.get("PYVC_MAX_MUTANTS", "32"))
 
 
 def load_contract(ref):
@@ -88,6 +90,79 @@ def _job(args):
                 'sha256': None, 'assumptions': []}
 
 
+def _mutant_job(args):
+    """one deliberately broken body of the function under contract (in memory): is it noticed?"""
+    ref, site, facts, timeout_ms = args
+    from . import verify as V
+    from .ctx import Unsupported
+    import signal
+    t0 = time.time()
+
+    def on_alarm(signum, frame):
+        raise Unsupported('time budget for this mutant exceeded')
+    out = {'ref': ref, 'site': site, 'mutation': None, 'verdict': 'not-decisive', 'how': '', 'wall_s': 0}
+    try:
+        signal.signal(signal.SIGALRM, on_alarm)
+        signal.alarm(MUTANT_BUDGET_S)
+        c = load_contract(ref)
+        c.config = dict(c.config)
+        c.config['envfacts'] = facts
+        rep = V.verify(c, timeout_ms=min(timeout_ms, 4000), mutate=site, stop_at_first_failure=True)
+        signal.alarm(0)
+        out['mutation'] = getattr(rep, 'mutation', None)
+        bad = [r for r in rep.results if r.status != 'unsat']
+        if out['mutation'] is None or (not bad and not rep.unsupported and not getattr(rep, 'mutation_executed', True)):
+            out['verdict'], out['how'] = 'not-decisive', 'the mutated line is not executed by the cases of the contract'
+        elif bad:
+            out['verdict'], out['how'] = 'killed', 'obligation %s [%s] %s' % (bad[0].name, bad[0].case, bad[0].status)
+        elif rep.unsupported:
+            out['verdict'], out['how'] = 'left-subset', rep.unsupported[0][:160]
+        elif rep.errors:
+            out['verdict'], out['how'] = 'not-decisive', 'engine error: ' + rep.errors[0][:160]
+        elif any(not v for v in rep.covers.values()):
+            out['verdict'], out['how'] = 'killed', 'expected outcome no longer reachable: %s' % [k for k, v in rep.covers.items() if not v][0]
+        else:
+            out['verdict'], out['how'] = 'survived', '%d obligations still discharged' % len(rep.results)
+    except Unsupported as e:
+        out['verdict'], out['how'] = 'left-subset', str(e)[:160]
+    except Exception as e:   # noqa
+        out['verdict'], out['how'] = 'not-decisive', '%s: %s' % (type(e).__name__, str(e)[:160])
+    finally:
+        try:
+            signal.alarm(0)
+        except Exception:
+            pass
+    out['wall_s'] = round(time.time() - t0, 2)
+    return out
+
+
+def run_mutants(contract_refs, facts, timeout_ms, procs, seed, per_contract=3):
+    import ast as _ast
+    import random as _random
+    from . import loader, mutate, verify as V
+    jobs = []
+    for ref in contract_refs:
+        c = load_contract(ref)
+        try:
+            mod, qual = V.split_target(c.target)
+            node = loader.find_def(mod, qual)[0]
+            n = mutate.count_sites(node)
+        except Exception:
+            n = 0
+        if not n:
+            continue
+        rnd = _random.Random('%s/%s' % (seed, ref))
+        for site in sorted(rnd.sample(range(n), min(n, per_contract))):
+            jobs.append((ref, site, facts, timeout_ms))
+    if not jobs:
+        return []
+    if len(jobs) > MAX_MUTANTS:
+        jobs = sorted(_random.Random('%s/cap' % seed).sample(jobs, MAX_MUTANTS), key=lambda j: (j[0], j[1]))
+    ctx = multiprocessing.get_context('fork')
+    with ctx.Pool(min(procs, len(jobs))) as pool:
+        return pool.map(_mutant_job, jobs, chunksize=1)
+
+
 def run_proof_jobs(contract_refs, facts, timeout_ms, procs):
     jobs = []
     for ref in contract_refs:
@@ -143,6 +218,11 @@ def crosscheck(pid, reports):
             if nm.split('.')[-1] == fname or nm.endswith('.' + fname):
                 real = kind
                 break
+        if real is None and (v.get('calls') or []):
+            # the oracle reached the function through an operator or a wrapper (d[key], f = lambda ...): its first call of the
+            # real code is the call under test
+            real = v['calls'][0][1]
+            out['matched_by_first_call'] = out.get('matched_by_first_call', 0) + 1
         if real is None:
             out['no_outcome'] += 1
             os.unlink(rp_path)
@@ -315,6 +395,19 @@ def check_property(pid, spec, tier='quick', seed=0, procs=None, write_baseline=F
         if not d['lib']:
             broken.append('engine/CPython disagreement on %s[%s] path %d: engine %s, CPython %s (inputs in %s)' % (
                 d['target'], d['case'], d['path'], d['engine'], d['real'], d['replay']))
+    # deliberately broken bodies (tier thorough): do the contracts notice?
+    mutants = None
+    if tier == 'thorough' and spec.get('contracts'):
+        res = run_mutants(spec['contracts'], facts, timeout_ms, procs, seed)
+        mutants = {'tried': len(res), 'killed': sum(1 for m in res if m['verdict'] == 'killed'),
+                   'left_subset': sum(1 for m in res if m['verdict'] == 'left-subset'),
+                   'survived': sum(1 for m in res if m['verdict'] == 'survived'),
+                   'not_decisive': sum(1 for m in res if m['verdict'] == 'not-decisive'),
+                   'details': [{'contract': m['ref'], 'mutation': m['mutation'], 'verdict': m['verdict'], 'how': m['how'], 'wall_s': m['wall_s']}
+                               for m in res]}
+        decisive = mutants['killed'] + mutants['survived'] + mutants['left_subset']
+        if decisive >= 3 and mutants['killed'] + mutants['left_subset'] == 0:
+            broken.append('no deliberately broken body was noticed by the contracts of %s (%d mutants survived)' % (pid, mutants['survived']))
     # bounded stand-in / cross-check
     bounded_summary = None
     if spec.get('bounded'):
@@ -386,7 +479,8 @@ def check_property(pid, spec, tier='quick', seed=0, procs=None, write_baseline=F
             'undecided': undecided[:50],
             'known_findings_matched': sorted(seen_kf),
             'bounded': bounded_summary,
-            'engine_crosscheck': {k_: cross[k_] for k_ in ('sampled_paths', 'models_found', 'replayed', 'agree', 'no_outcome', 'disagreements')},
+            'must_fail_mutants': mutants,
+            'engine_crosscheck': {k_: cross.get(k_) for k_ in ('sampled_paths', 'models_found', 'replayed', 'agree', 'matched_by_first_call', 'no_outcome', 'disagreements')},
             'samples': samples or [{'note': 'no discharged ensures obligation to show'}],
             'envfacts': facts,
         },
